@@ -1,6 +1,9 @@
 package worlds
 
 import (
+	"strings"
+	"sync"
+	_ "unsafe"
 	"runtime"
 	"runtime/pprof"
 	"bufio"
@@ -28,7 +31,85 @@ var (
 	fShrink = flag.String("sim.shrink", "", "replay file to minimise")
 	fShrOut = flag.String("sim.shrinkout", "", "where to write the minimised replay file")
 	fShrBud = flag.Duration("sim.shrinkbudget", 20*time.Second, "minimisation budget")
+	fWall   = flag.Duration("sim.runwall", 20*time.Second, "wall-clock limit for one run (CPU loop watchdog)")
 )
+
+// HangRecord is written next to the output when the watchdog fires.
+type HangRecord struct {
+	Hang  bool     `json:"hang"`
+	Spec  RunSpec  `json:"spec"`
+	Desc  any      `json:"desc"`
+	Site  string   `json:"site"`
+	Stack string   `json:"stack"`
+	WallS float64  `json:"wall_s"`
+}
+
+var watchdogOnce sync.Once
+
+// startWatchdog runs outside every bubble on the real clock. A run that makes
+// no progress for longer than -sim.runwall is a CPU loop in the code under
+// test (hooks are never reached, so the simulator cannot preempt it): the
+// worker records it and exits with status 3; the driver restarts after it.
+func startWatchdog(out string) {
+	watchdogOnce.Do(func() {
+		begin := time.Now()
+		wallNow = func() time.Time { return begin.Add(time.Duration(nanotime() - nano0)) }
+		go func() {
+			for {
+				time.Sleep(250 * time.Millisecond)
+				cur := Current.Load()
+				if cur == nil || cur.Start.IsZero() {
+					continue
+				}
+				el := wallNow().Sub(cur.Start)
+				if el < *fWall {
+					continue
+				}
+				buf := make([]byte, 1<<20)
+				n := runtime.Stack(buf, true)
+				site, stack := hangSite(string(buf[:n]))
+				spec := cur.Spec
+				spec.Replay = true
+				spec.W = append([]uint32(nil), cur.W.Out...)
+				spec.S = append([]uint32(nil), cur.S.Out...)
+				rec := HangRecord{Hang: true, Spec: spec, Desc: cur.Desc, Site: site, Stack: stack, WallS: el.Seconds()}
+				b, _ := json.Marshal(rec)
+				os.WriteFile(out+".hang", b, 0o644)
+				os.Exit(3)
+			}
+		}()
+	})
+}
+
+// hangSite finds the goroutine that is burning CPU inside the repository's code.
+func hangSite(all string) (string, string) {
+	for _, g := range strings.Split(all, "\n\n") {
+		first := g
+		if i := strings.IndexByte(g, '\n'); i > 0 {
+			first = g[:i]
+		}
+		if !strings.Contains(first, "[running") && !strings.Contains(first, "[runnable") {
+			continue
+		}
+		if !strings.Contains(g, "rockorager/vaxis") {
+			continue
+		}
+		for _, l := range strings.Split(g, "\n") {
+			if strings.HasPrefix(l, "git.sr.ht/~rockorager/vaxis") && !strings.Contains(l, "/simrt.") {
+				fn := l
+				if k := strings.LastIndex(fn, "("); k > 0 {
+					fn = fn[:k]
+				}
+				lines := strings.Split(g, "\n")
+				if len(lines) > 24 {
+					lines = lines[:24]
+				}
+				return strings.TrimPrefix(fn, "git.sr.ht/~rockorager/vaxis"), strings.Join(lines, "\n")
+			}
+		}
+	}
+	return "unknown", ""
+}
 
 // TestWorker executes a range of run indices and writes one JSON line per run.
 func TestWorker(t *testing.T) {
@@ -56,6 +137,7 @@ func TestWorker(t *testing.T) {
 	defer bw.Flush()
 	enc := json.NewEncoder(bw)
 	opts := parseOpts(*fOpts)
+	startWatchdog(*fOut)
 	Calibrate(t)
 	start := time.Now()
 	kept := 0
@@ -141,6 +223,7 @@ func replayMain(t *testing.T) {
 	if err := json.Unmarshal(b, &rf); err != nil {
 		t.Fatal(err)
 	}
+	startWatchdog(*fReplay)
 	Calibrate(t)
 	spec := rf.Spec
 	spec.Replay = true
@@ -195,3 +278,8 @@ func shrinkMain(t *testing.T) {
 		t.Fatal(err)
 	}
 }
+
+//go:linkname nanotime runtime.nanotime
+func nanotime() int64
+
+var nano0 = nanotime()
